@@ -342,6 +342,30 @@ def ob_header(n):
     return h
 
 
+def ob_two_templates():
+    """"reports every undefined name" across TWO templates processed one after the other (two configure_file() calls of one configuration), in each of the three
+    formats: what is reported for the second template is exactly ITS undefined names - nothing remembered from the first -, also when a #mesondefine /
+    #cmakedefine value of the first one spells a placeholder"""
+    def h():
+        fmt = ['meson', 'cmake', 'cmake@'][choose(3, 'format')]
+        u = sym_str(1, 'undefined_name', alphabet='XYZ')
+        k = 'K'
+        ph = (lambda n: '@' + n + '@') if fmt != 'cmake' else (lambda n: '${' + n + '}')
+        first = [['a ' + ph(u) + '\n'], ['#mesondefine D\n' if fmt == 'meson' else '#cmakedefine D ' + ph(u) + '\n', 'b\n'], ['plain\n']][choose(3, 'first template')]
+        conf1 = CD([(k, ('v', None)), ('D', (ph(u) if fmt == 'meson' else 'x', None))])
+        U.do_conf_str('t1', list(first), conf1, fmt)
+        second_undef = choose(2, 'second template has an undefined name of its own') == 1
+        w = sym_str(1, 'second_name', alphabet='WX')
+        second = ['c ' + ph(k) + '\n'] + (['d ' + ph(w) + '\n'] if second_undef else [])
+        res, miss, useless = U.do_conf_str('t2', list(second), CD([(k, ('v', None))]), fmt)
+        exp = [w] if second_undef else []
+        got = list(miss)
+        check(len(got) == len(exp) and all(decide(bt_any(eq(a, b))) for a, b in zip(got, exp)), 'the second template reports exactly its own undefined names')
+        check(len(res) == len(second) and decide(bt_any(eq(res[0], 'c v\n'))), 'the second template is substituted as if it were the only one')
+        cover('done')
+    return h
+
+
 def _directive_lines(text, fmt):
     """what a C preprocessor / nasm sees of a generated header: comments removed (C: /* ... */; nasm: from ';' to the end of the line), blank lines dropped"""
     cs = chars_of(text); out = []; cur = []; i = 0; n = len(cs); in_c = False
@@ -433,6 +457,7 @@ def obligations(tier):
         out.append(Obligation('cmakedefine%s' % ('@' if at_only else ''), ob_cmakedefine(at_only), dict(indentation='none|space|tab|2 spaces', after_hash='none|space|tab', variant='cmakedefine|cmakedefine01',
                               name='1-2 chars', extra_tokens='0-3 incl. a placeholder of the name', value='str <=2 | int | bool | empty | undefined', eol='LF|CRLF|none'),
                               labels=('01', 'undef', 'define'), max_paths=3000000, classify=classify_cmakedefine))
+    out.append(Obligation('two-templates', ob_two_templates(), dict(real='do_conf_str (meson | cmake | cmake@) twice in a row', first='an undefined placeholder | a define whose value spells a placeholder | plain text', second='a defined placeholder, optionally an undefined one of its own'), labels=('done',)))
     for n in (1, 2) if q else (1, 2, 3):
         out.append(Obligation('header[%d]' % n, ob_header(n), dict(entries=n), labels=('done',), max_paths=3000000))
     out.append(Obligation('header-descriptions', ob_header_desc(not q), dict(format='c | nasm', include_guard='absent | present (c)', entries='1-2', description='absent | 0-3 characters over {a, space, %, #, LF, CR}' if not q else 'absent | 0, 2, 3 characters (one entry) / 2 characters (two entries) over {a, %, LF, CR}',
